@@ -136,3 +136,148 @@ def run_closed(ctx: Ctx) -> bool:
               "with open variables) fails with an internal error, or hands out a half-resolved instantiation, although an instantiation "
               "that fits exists")
     return True
+
+
+def _var(nm):
+    t = Tok(nm, __ident__=1)
+    t.attrs["unsolved_vars"] = {t}
+    t.attrs["__methods__"] = {"substitute": lambda r, a: a[0].get(r, r)}  # ONE application, like Type.substitute
+    return t
+
+
+def _closed(nm):
+    t = Tok(nm, unsolved_vars=set(), __ident__=1)
+    t.attrs["__methods__"] = {"substitute": lambda r, a: r, "to_arg": lambda r, a: f"arg:{r.name}"}
+    return t
+
+
+def _closure(subst: dict) -> dict:
+    out = dict(subst)
+    for _ in range(len(out) + 1):
+        out = {k: out.get(v, v) if isinstance(v, Tok) else v for k, v in out.items()}
+    return out
+
+
+def run_args(ctx: Ctx) -> bool:
+    """R-C12.8 (arguments)  `type_check_args`, interpreted, on starting solutions that tie the parameters of the callee together.
+
+    The callee is `g(u: ?U, t: ?T)`; the solution found from the expected type ties ?U and ?T (directly, through a chain via a
+    third variable, or not at all); the two arguments are literals of type bool / float (`ExprChecker.check` is a recorder: against
+    an open variable it solves it with the literal's type, against a closed type it accepts exactly that type).
+    Specification: rejected (GuppyTypeError) iff ?U and ?T are tied and the literal types differ; if accepted, the returned
+    solution -- closed under itself -- gives every parameter the type of its argument.
+    """
+    idx = ctx.idx
+    EC = "guppylang_internals.checker.expr_checker"
+    f = idx.find_func("type_check_args", EC)
+    key = f"{f.qualname}#argument-solutions-merged-not-overwritten"
+    ps = [a.arg for a in f.node.args.args]
+    bad = []
+    n = 0
+    try:
+        for start_name, (lit_u, lit_t) in itertools.product(("none", "?T:=?U", "?U:=?T", "?X:=?T,?T:=?U", "?T:=?X,?X:=?U"), itertools.product(("bool", "float"), repeat=2)):
+            n += 1
+            vU, vT, vX = _var("?U"), _var("?T"), _var("?X")
+            tys = {"bool": _closed("bool"), "float": _closed("float")}
+            start = {"none": {}, "?T:=?U": {vT: vU}, "?U:=?T": {vU: vT}, "?X:=?T,?T:=?U": {vX: vT, vT: vU}, "?T:=?X,?X:=?U": {vT: vX, vX: vU}}[start_name]
+            tied = start_name != "none"
+
+            def mk_checker(nd, e, env):
+                def check(r, a):
+                    arg, ty = a[0], a[1]
+                    lit = tys[arg.attrs["lit"]]
+                    if ty.attrs.get("unsolved_vars"):
+                        return (arg, {ty: lit})
+                    if ty is not lit:
+                        raise Raised(f"expected {ty.name}, got {lit.name}", "GuppyTypeError")
+                    return (arg, {})
+                return Tok("ExprChecker", __methods__={"check": check})
+
+            out_ty = Tok("out", unsolved_vars=set(), __methods__={"substitute": lambda r, a: r}, __ident__=1)
+            func_ty = Tok("unquantified", parametrized=False, comptime_args=[], output=out_ty, __ident__=1,
+                          inputs=[Tok("inp_u", ty=vU, flags=set(), __ident__=1), Tok("inp_t", ty=vT, flags=set(), __ident__=1)])
+            args = [Tok("arg_u", __class__="Constant", lit=lit_u, __ident__=1), Tok("arg_t", __class__="Constant", lit=lit_t, __ident__=1)]
+            env = {ps[0]: args, ps[1]: func_ty, ps[2]: dict(start), ps[3]: Tok("ctx"), ps[4]: Tok("node"),
+                   "check_num_args": lambda nd, e, env: None, "ExprChecker": mk_checker}
+            from .c06_place import FlagEval  # `InputFlags.X` evaluates to its name
+
+            ev = FlagEval(idx, EC, max_depth=6)
+            ev.check_asserts = True
+            try:
+                out = ev.run(f.node.body, env)
+                raised = str(out[1]) if out[0] == "raise" else None
+                ret = out[1] if out[0] == "return" else None
+            except Raised as e:
+                raised, ret = e.cls or str(e), None
+            want_reject = tied and lit_u != lit_t
+            case = {"solution_from_the_expected_type": start_name, "arguments": f"g({lit_u} literal, {lit_t} literal)"}
+            if want_reject != (raised is not None) or (raised is not None and "GuppyTypeError" not in raised):
+                got = _closure(ret[1]) if ret and isinstance(ret[1], dict) else None
+                bad.append({**case, "outcome": f"rejected ({raised})" if raised else "accepted", "should_be": "rejected: ?U and ?T are tied but the arguments have different types" if want_reject else "accepted",
+                            "solution": {k.name: getattr(v, "name", v) for k, v in (got or {}).items()}})
+            elif not want_reject:
+                got = _closure(ret[1]) if isinstance(ret, tuple) and isinstance(ret[1], dict) else {}
+                names = {k.name: getattr(v, "name", v) for k, v in got.items()}
+                if names.get("?U") != lit_u or names.get("?T") != lit_t:
+                    bad.append({**case, "solution": names, "should_be": {"?U": lit_u, "?T": lit_t}})
+    except Unsupported as e:
+        ctx.undecided("R-C12.8", key, f.where, str(e))
+        return False
+    ctx.check(not bad, "R-C12.8", key, f.where, {"cases": n, "counterexamples": bad[:4], "n_counterexamples": len(bad)},
+              "the solution found for one argument is overwritten by the next one when the callee's parameters are tied through the "
+              "expected type (`f(g(True, 1.5))` with `g: (U, T) -> tuple[T, U, V]`, `f: tuple[X, X, int] -> X` is accepted with U = float "
+              "and a bool argument), or a call that has an instantiation is rejected")
+    return True
+
+
+def run_against(ctx: Ctx) -> bool:
+    """R-C12.8 (function values)  `check_type_against` on a generic function value: the solution handed back is resolved.
+
+    The parametrised branch is interpreted with `unify` a recorder returning the consistent triangular solutions
+    {?X := ?T, ?T := int} and {?T := ?X, ?X := int} (?X: variable of the expected type, ?T: the private variable standing for the
+    value's parameter).  Specification: accepted; the instantiation of the parameter is int; the solution handed back is exactly
+    {?X := int} -- no private variable of the value's own type escapes.
+    """
+    idx = ctx.idx
+    EC = "guppylang_internals.checker.expr_checker"
+    f = idx.find_func("check_type_against", EC)
+    key = f"{f.qualname}#generic-value-solution-resolved"
+    ps = [a.arg for a in f.node.args.args]
+    bad = []
+    try:
+        for orient in ("?X:=?T,?T:=int", "?T:=?X,?X:=int"):
+            vX, vT = _var("?X"), _var("?T")
+            t_int = _closed("int")
+            sol = {vX: vT, vT: t_int} if orient.startswith("?X") else {vT: vX, vX: t_int}
+            exp = Tok("Callable[[?X, int], ?X]", __class__="FunctionType", parametrized=False, unsolved_vars={vX}, __ident__=1)
+            unq = Tok("(?T, ?T) -> ?T", __ident__=1)
+            act = Tok("forall T. (T, T) -> T", __class__="FunctionType", __bases__=("TypeBase",), parametrized=True, unsolved_vars=set(), params=[Tok("param_T", name="T")], __ident__=1)
+            act.attrs["__methods__"] = {"unquantified": lambda r, a, unq=unq, vT=vT: (unq, [vT])}
+            env = {ps[0]: act, ps[1]: exp, ps[2]: Tok("node"), ps[3]: Tok("ctx"), "unify": lambda nd, e, env, sol=sol: dict(sol), "check_inst": lambda nd, e, env: None,
+                   "TypeMismatchError": lambda nd, e, env: Tok("TypeMismatchError", __methods__={"add_sub_diagnostic": lambda r, a: None})}
+            for p_ in ps[4:]:
+                env[p_] = "expression"
+            ev = PyEval(idx, EC, max_depth=6)
+            ev.check_asserts = True
+            try:
+                out = ev.run(f.node.body, env)
+                raised = str(out[1]) if out[0] == "raise" else None
+                ret = out[1] if out[0] == "return" else None
+            except Raised as e:
+                raised, ret = e.cls or str(e), None
+            if raised is not None:
+                bad.append({"solution_of_unify": orient, "outcome": f"rejected ({raised})", "should_be": "accepted with T = int"})
+                continue
+            if not (isinstance(ret, tuple) and len(ret) == 3 and isinstance(ret[1], dict)):
+                raise Unsupported(f"check_type_against returns {ret!r}"[:80])
+            s_out = {k.name: getattr(v, "name", v) for k, v in ret[1].items()}
+            if s_out != {"?X": "int"} or list(ret[2]) != ["arg:int"]:
+                bad.append({"solution_of_unify": orient, "solution_handed_back": s_out, "instantiation": [str(x) for x in ret[2]], "should_be": {"solution": {"?X": "int"}, "instantiation": ["arg:int"]}})
+    except Unsupported as e:
+        ctx.undecided("R-C12.8", key, f.where, str(e))
+        return False
+    ctx.check(not bad, "R-C12.8", key, f.where, {"cases": 2, "counterexamples": bad},
+              "a generic function passed where a function type with open variables is expected (`h(k)`, `k: (T, T) -> T`, "
+              "`h: Callable[[X, int], X] -> X`) hands back a solution that still mentions the value's private variable (internal error "
+              "in the caller) or is rejected although T = X = int fits")
+    return True
